@@ -172,3 +172,560 @@ class PorInit(Unit):
 
 
 UNITS = [PorInit(), PorSeek(), PorRead(), PorTell()]
+
+
+# ----------------------------------------------------------------------------- LazyLooseStream (open state)
+def lls_view(s):
+    fh = s.f['_stream']
+    return NS(fh=fh, content=fh.content(), pos=fh.kpos)
+
+
+def mk_lls(vc, I, content=None, opened=True):
+    w = vc.world
+    if w is None:
+        w = vc.world = EM.World(vc)
+    content = SBytes.fresh('loosecontent') if content is None else content
+    s = new_obj(I, 'utils:LazyLooseStream', _container=EM.Dummy('container'), _hashkey=vc.fresh_key('hk'), _stream=None)
+    s.f['$content'] = content
+    if opened:
+        ino = w.new_inode(vc, content)
+        fh = EM.FileObj(w, ino, 'rb')
+        fh.kpos = SInt.fresh('lpos')
+        vc.assume(fh.kpos >= 0)
+        s.f['_stream'] = fh
+    return s
+
+
+def file_seek_result(o_pos, o_len, target, whence):
+    w, t = SInt.of(whence), SInt.of(target)
+    return ite(w == 0, t, ite(w == 1, o_pos + t, o_len + t))
+
+
+class LlsBase(Unit):
+    props = ('C07',)
+    inline = ('utils:LazyLooseStream.closed',)
+
+    def pre(self, vc, a):
+        s = a.self
+        yield 'stream_open', SBool.of(s.f['_stream'] is not None and not s.f['_stream'].closed)
+        yield 'pos_nonneg', s.f['_stream'].kpos >= 0 if s.f['_stream'] is not None else False
+
+    def snapshot(self, vc, a):
+        return lls_view(a.self)
+
+
+class LlsRead(LlsBase):
+    fn = 'utils:LazyLooseStream.read'
+
+    def make(self, vc, I):
+        return NS(self=mk_lls(vc, I), size=opt_int(vc, 'size', 'size_is_None'))
+
+    def post(self, vc, a, o, ret):
+        n = lls_view(a.self)
+        exp = o.content.slice(o.pos, None) if a.size is None else \
+            ite(SInt.of(a.size) < 0, o.content.slice(o.pos, None), o.content.slice(o.pos, o.pos + SInt.of(a.size)))
+        yield 'like_memory_file', SBytes.of(ret) == exp
+        yield 'pos_advanced', n.pos == o.pos + SBytes.of(ret).length()
+        yield 'content_unchanged', n.content == o.content
+
+    def havoc(self, vc, I, a):
+        a.self.f['_stream'].kpos = SInt.fresh('lpos')
+        return SBytes.fresh('llsread')
+
+
+class LlsSeek(LlsBase):
+    fn = 'utils:LazyLooseStream.seek'
+    allowed_exc = ('ValueError', 'OSError')
+
+    def make(self, vc, I):
+        return NS(self=mk_lls(vc, I), target=SInt.fresh('target'), whence=SInt.of(vc.choose(3, label='whence')))
+
+    def post(self, vc, a, o, ret):
+        n = lls_view(a.self)
+        p = file_seek_result(o.pos, o.content.length(), a.target, a.whence)
+        yield 'like_memory_file', b_and(SInt.of(ret) == p, n.pos == p, p >= 0)
+        yield 'content_unchanged', n.content == o.content
+
+    def exc(self, vc, a, o, e):
+        n = lls_view(a.self)
+        p = file_seek_result(o.pos, o.content.length(), a.target, a.whence)
+        yield 'rejects_only_negative_positions', p < 0
+        yield 'reject_leaves_position', n.pos == o.pos
+
+    def havoc(self, vc, I, a):
+        a.self.f['_stream'].kpos = SInt.fresh('lpos')
+        return SInt.fresh('llsseek')
+
+    def exc_cases(self, vc, I, a, o):
+        p = file_seek_result(o.pos, o.content.length(), a.target, a.whence)
+        yield 'ValueError', p < 0, None
+
+
+class LlsTell(LlsBase):
+    fn = 'utils:LazyLooseStream.tell'
+
+    def make(self, vc, I):
+        return NS(self=mk_lls(vc, I))
+
+    def post(self, vc, a, o, ret):
+        n = lls_view(a.self)
+        yield 'tell_is_pos', b_and(SInt.of(ret) == o.pos, n.pos == o.pos)
+
+    def havoc(self, vc, I, a):
+        return SInt.fresh('llstell')
+
+
+class LlsOpenStreamAssumed(Unit):
+    """LazyLooseStream.open_stream as seen by the decompresser: ASSUMED here (it re-enters the container through
+    loosen_object); its own obligations are discharged by the container-level units (contracts/loosen.py)."""
+    fn = 'utils:LazyLooseStream.open_stream'
+    props = ('C07',)
+    trusted = True
+
+    def post(self, vc, a, o, ret):
+        s = a.self
+        fh = s.f['_stream']
+        yield 'open', SBool.of(fh is not None and not fh.closed)
+        yield 'content_is_object', fh.content() == s.f['$content']
+        yield 'pos_nonneg', fh.kpos >= 0
+
+    def havoc(self, vc, I, a):
+        s = a.self
+        fh = s.f['_stream']
+        if fh is None or fh.closed:
+            w = vc.world
+            ino = w.new_inode(vc, s.f['$content'])
+            fh = EM.FileObj(w, ino, 'rb')
+            s.f['_stream'] = fh
+        return None
+
+
+# ----------------------------------------------------------------------------- ZlibLikeBaseStreamDecompresser
+def joined_of(lst):
+    if lst.items is not None:
+        out = b''
+        for x in lst.items:
+            out = EM._cat(SBytes, out, x)
+        return SBytes.of(out)
+    return SBytes.of(lst.g['joined'])
+
+
+def zd_view(d):
+    """Abstract (content, pos) of a decompresser in either mode."""
+    cs = d.f['_compressed_stream']
+    dz = d.f['_decompressor']
+    D = EM.dec(True, cs.content)
+    if d.f['_use_uncompressed_stream'] is True:
+        lv = lls_view(d.f['_lazy_uncompressed_stream'])
+        return NS(mode='u', content=lv.content, pos=lv.pos, D=D)
+    return NS(mode='c', content=D, pos=SInt.of(d.f['_pos']), D=D, cs=cs, dz=dz, buf=SBytes.of(d.f['_internal_buffer']),
+              cspos=cs.pos, inp=SBytes.of(dz.inp), out=SBytes.of(dz.out), tail=SBytes.of(dz.unconsumed_tail),
+              eof=SBool.of(dz.eof))
+
+
+def zd_rep(d):
+    v = zd_view(d)
+    if v.mode == 'u':
+        l = d.f['_lazy_uncompressed_stream']
+        fh = l.f['_stream']
+        return [('lazy_open', SBool.of(fh is not None and not fh.closed)),
+                ('lazy_content_is_inflated_object', fh.content() == v.D),
+                ('lazy_pos_nonneg', fh.kpos >= 0)]
+    Z = v.cs.content
+    ilen, olen = v.inp.length(), v.out.length()
+    return [('pos_nonneg', v.pos >= 0),
+            ('stream_is_valid_zlib', EM.zvalid(Z)),
+            ('decompressor_follows_stream', SBool.of(v.dz.Z.t.eq(Z.t))),
+            ('consumed_is_prefix_of_stream', v.inp == Z.slice(0, ilen)),
+            ('tail_is_next_part_of_stream', v.tail == Z.slice(ilen, v.cspos)),
+            ('cspos_in_range', b_and(ilen <= v.cspos, v.cspos <= Z.length())),
+            ('produced_is_prefix_of_inflation', v.out == v.D.slice(0, olen)),
+            ('buffer_is_window_after_position', v.buf == v.D.slice(v.pos, olen)),
+            ('pos_not_beyond_produced', b_and(v.pos <= olen, olen <= v.D.length())),
+            ('eof_iff_all_consumed', v.eof == (ilen == Z.length())),
+            ('eof_means_all_produced', implies(v.eof, olen == v.D.length()))]
+
+
+def zd_state(vc, d, keep_pos=False):
+    """Put the decompresser (compressed mode) into an arbitrary state satisfying the representation invariant,
+    defined structurally from four integers (so that the solver only sees arithmetic side conditions)."""
+    cs, dz = d.f['_compressed_stream'], d.f['_decompressor']
+    Z = cs.content
+    D = EM.dec(True, Z)
+    cspos, ilen, olen = SInt.fresh('cspos'), SInt.fresh('ilen'), SInt.fresh('olen')
+    pos = SInt.of(d.f['_pos']) if keep_pos else SInt.fresh('zpos')
+    vc.assume(b_and(ilen >= 0, ilen <= cspos, cspos <= Z.length(), pos >= 0, pos <= olen, olen <= D.length()))
+    cs.pos = cspos
+    dz.inp, dz.unconsumed_tail, dz.out = Z.slice(0, ilen), Z.slice(ilen, cspos), D.slice(0, olen)
+    dz.eof = vc.fresh_bool('eof')
+    vc.assume(dz.eof == (ilen == Z.length()))
+    vc.assume(implies(dz.eof, olen == D.length()))
+    d.f['_internal_buffer'] = D.slice(pos, olen)
+    d.f['_pos'] = pos
+
+
+def mk_zd(vc, I, mode=None, with_lazy=None):
+    """A decompresser in an arbitrary reachable state. mode: 'c' compressed, 'u' switched to the loose copy."""
+    base = I.prog.classes['utils:ZlibLikeBaseStreamDecompresser']
+    chunk = SInt.fresh('CHUNK')
+    vc.assume(chunk >= 1)
+    base.attrs['_CHUNKSIZE'] = chunk
+    vc.world = EM.World(vc)
+    Z = SBytes.fresh('Zstream')
+    vc.assume(EM.zvalid(Z))
+    cs = EM.AbsStream(Z, 0, name='compressed_stream')
+    dz = EM.DecompObj(I)
+    dz.Z = Z
+    if mode is None:
+        mode = 'cu'[vc.choose(2, label='mode')]
+    if with_lazy is None:
+        with_lazy = True if mode == 'u' else (vc.choose(2, label='has_lazy') == 0)
+    lazy = None
+    if with_lazy:
+        lazy = mk_lls(vc, I, content=EM.dec(True, Z), opened=(mode == 'u' or vc.choose(2, label='lazy_open') == 0))
+    d = new_obj(I, 'utils:ZlibStreamDecompresser', _compressed_stream=cs, _decompressor=dz,
+                _internal_buffer=b'', _pos=0, _lazy_uncompressed_stream=lazy,
+                _use_uncompressed_stream=(mode == 'u'))
+    zd_state(vc, d)
+    return d
+
+
+def zd_havoc(vc, d, keep_pos=False):
+    if d.f['_use_uncompressed_stream'] is True:
+        d.f['_lazy_uncompressed_stream'].f['_stream'].kpos = SInt.fresh('lpos')
+        return
+    zd_state(vc, d, keep_pos)
+
+
+class ZdBase(Unit):
+    props = ('C07', 'C01')
+    inline = ('utils:ZlibStreamDecompresser.decompressobj_class', 'utils:ZlibStreamDecompresser.decompress_error',
+              'utils:LazyLooseStream.closed')
+
+    def pre(self, vc, a):
+        return zd_rep(a.self)
+
+    def snapshot(self, vc, a):
+        return zd_view(a.self)
+
+    def rep_clauses(self, a):
+        for nm, f in zd_rep(a.self):
+            yield 'rep_kept:' + nm, f
+
+
+def read_expected(o, size):
+    if size is None:
+        return o.content.slice(o.pos, None)
+    s = SInt.of(size)
+    return ite(s < 0, o.content.slice(o.pos, None), o.content.slice(o.pos, o.pos + s))
+
+
+def _loop_read_all(vc, L):
+    d = L.self
+    v = zd_view(d)
+    yield from zd_rep(d)
+    yield 'collected_is_what_was_skipped', joined_of(L.data) == v.D.slice(L.__getattr__('$pos0'), v.pos)
+    yield 'pos_monotone', v.pos >= L.__getattr__('$pos0')
+
+
+def _havoc_read_all(vc, L):
+    zd_havoc(vc, L.self)
+    v = zd_view(L.self)
+    pos0 = SInt.of(vc.ghost['$pos0'])
+    vc.assume(v.pos >= pos0)
+    L.data = MList(None, joined=v.D.slice(pos0, v.pos), n=SInt.fresh('nchunks'))
+
+
+def _loop_fill(vc, L):
+    d = L.self
+    v = zd_view(d)
+    yield from zd_rep(d)
+    yield 'pos_unchanged_while_filling', v.pos == L.__getattr__('$pos0')
+    yield 'size_positive', SInt.of(L.size) > 0
+
+
+def _havoc_fill(vc, L):
+    zd_havoc(vc, L.self, keep_pos=True)
+
+
+class ZdReadCompressed(ZdBase):
+    fn = 'utils:ZlibLikeBaseStreamDecompresser._read_compressed'
+    allowed_exc = ()          # for a valid stream no exception may escape (no_spurious_error, F7)
+    loops = {
+        0: Loop(0, _loop_read_all, havoc=_havoc_read_all, fingerprint='True'),
+        1: Loop(1, _loop_fill, havoc=_havoc_fill, fingerprint='len(self._internal_buffer) < size'),
+    }
+
+    def make(self, vc, I):
+        d = mk_zd(vc, I, mode='c')
+        return NS(self=d, size=opt_int(vc, 'size', 'size_is_None'))
+
+    def on_path_start(self, vc, I):
+        pass
+
+    def snapshot(self, vc, a):
+        o = zd_view(a.self)
+        # ghost: position at entry, visible to the loop invariants
+        vc.ghost['$pos0'] = o.pos
+        return o
+
+    def post(self, vc, a, o, ret):
+        n = zd_view(a.self)
+        yield 'returns_exactly_the_requested_bytes', SBytes.of(ret) == read_expected(o, a.size)
+        yield 'position_advanced_by_returned_length', n.pos == o.pos + SBytes.of(ret).length()
+        yield from self.rep_clauses(a)
+
+    def havoc(self, vc, I, a):
+        zd_havoc(vc, a.self)
+        return SBytes.fresh('zdread')
+
+
+def _zd_read_havoc(vc, I, a):
+    """Callee-mode effect of read(): the result is *defined* as the specified slice (structural term)."""
+    o = a.o
+    ret = read_expected(o, a.size)
+    d = a.self
+    if o.mode == 'u':
+        d.f['_lazy_uncompressed_stream'].f['_stream'].kpos = o.pos + ret.length()
+        return ret
+    zd_havoc(vc, d)
+    vc.assume(SInt.of(d.f['_pos']) == o.pos + ret.length())
+    return ret
+
+
+class ZdRead(ZdBase):
+    fn = 'utils:ZlibLikeBaseStreamDecompresser.read'
+    allowed_exc = ()
+
+    def make(self, vc, I):
+        return NS(self=mk_zd(vc, I), size=opt_int(vc, 'size', 'size_is_None'))
+
+    def post(self, vc, a, o, ret):
+        n = zd_view(a.self)
+        yield 'like_memory_file', SBytes.of(ret) == read_expected(o, a.size)
+        yield 'position_advanced_by_returned_length', n.pos == o.pos + SBytes.of(ret).length()
+        yield 'content_unchanged', n.content == o.content
+        yield from self.rep_clauses(a)
+
+    def havoc(self, vc, I, a):
+        return _zd_read_havoc(vc, I, a)
+
+
+class ZdTell(ZdBase):
+    fn = 'utils:ZlibLikeBaseStreamDecompresser.tell'
+
+    def make(self, vc, I):
+        return NS(self=mk_zd(vc, I))
+
+    def post(self, vc, a, o, ret):
+        n = zd_view(a.self)
+        yield 'tell_is_pos', b_and(SInt.of(ret) == o.pos, n.pos == o.pos)
+        yield from self.rep_clauses(a)
+
+    def havoc(self, vc, I, a):
+        return SInt.fresh('zdtell')
+
+
+def zd_seek_spec(a, o, n, ret, mode_after):
+    """The decompresser's seek against the in-memory-file spec.
+    compressed mode: absolute target t>=0 -> min(t, len) (clamped at the end), returned.
+    loose mode: CPython file semantics (positions beyond the end are allowed, as for io.BytesIO)."""
+    w, t = SInt.of(a.whence), SInt.of(a.target)
+    ln = o.content.length()
+    p = ite(w == 0, t, ite(w == 1, o.pos + t, ln + t))
+    in_range = b_and(p >= 0, p <= ln)
+    yield 'in_range_target_reached_and_returned', implies(in_range, b_and(n.pos == p, SInt.of(ret) == p))
+    yield 'ret_is_new_position', SInt.of(ret) == n.pos
+    if mode_after == 'c':
+        yield 'beyond_end_is_clamped', implies(p > ln, n.pos == ln)
+    yield 'never_negative', n.pos >= 0
+    yield 'content_unchanged', n.content == o.content
+
+
+def _loop_skip(vc, L):
+    d = L.self
+    v = zd_view(d)
+    yield from zd_rep(d)
+    yield 'skipping_forward_only', b_and(v.pos <= SInt.of(L.target), v.pos >= L.__getattr__('$skipfrom'))
+
+
+def _havoc_skip(vc, L):
+    zd_havoc(vc, L.self)
+
+
+class ZdSeekInternal(ZdBase):
+    fn = 'utils:ZlibLikeBaseStreamDecompresser._seek_internal'
+    allowed_exc = ('ValueError', 'NotImplementedError', 'OSError')
+    inline = ZdBase.inline + ('utils:ZlibLikeBaseStreamDecompresser.tell',)
+    loops = {0: Loop(0, _loop_skip, havoc=_havoc_skip, fingerprint='self.tell() < target')}
+
+    def make(self, vc, I):
+        d = mk_zd(vc, I)
+        return NS(self=d, target=SInt.fresh('target'), whence=SInt.of(vc.choose(3, label='whence')))
+
+    def snapshot(self, vc, a):
+        o = zd_view(a.self)
+        vc.ghost['$skipfrom'] = 0 if o.mode == 'c' else o.pos
+        return o
+
+    def post(self, vc, a, o, ret):
+        n = zd_view(a.self)
+        yield from zd_seek_spec(a, o, n, ret, n.mode)
+        yield 'mode_kept', SBool.of(n.mode == o.mode)
+        yield from self.rep_clauses(a)
+
+    def exc(self, vc, a, o, e):
+        n = zd_view(a.self)
+        w, t = SInt.of(a.whence), SInt.of(a.target)
+        p = ite(w == 0, t, ite(w == 1, o.pos + t, o.content.length() + t))
+        if o.mode == 'c':
+            yield 'rejects_only_negative_or_end_relative', b_or(p < 0, w == 2)
+        else:
+            yield 'rejects_only_negative', p < 0
+        yield 'reject_leaves_position', n.pos == o.pos
+        yield from self.rep_clauses(a)
+
+    def havoc(self, vc, I, a):
+        zd_havoc(vc, a.self)
+        return SInt.fresh('zdseek')
+
+    def exc_cases(self, vc, I, a, o):
+        w, t = SInt.of(a.whence), SInt.of(a.target)
+        p = ite(w == 0, t, ite(w == 1, o.pos + t, o.content.length() + t))
+        if o.mode == 'c':
+            yield 'ValueError', b_and(p < 0, w != 2), None
+            yield 'NotImplementedError', w == 2, None
+        else:
+            yield 'ValueError', p < 0, None
+
+
+class ZdSeek(ZdBase):
+    fn = 'utils:ZlibLikeBaseStreamDecompresser.seek'
+    allowed_exc = ('ValueError', 'NotImplementedError', 'OSError')
+
+    def make(self, vc, I):
+        d = mk_zd(vc, I)
+        return NS(self=d, target=SInt.fresh('target'), whence=SInt.fresh('whence'))
+
+    def post(self, vc, a, o, ret):
+        n = zd_view(a.self)
+        w = SInt.of(a.whence)
+        yield 'whence_valid', b_or(w == 0, w == 1, w == 2)
+        yield from zd_seek_spec(a, o, n, ret, n.mode)
+        yield from self.rep_clauses(a)
+
+    def exc(self, vc, a, o, e):
+        n = zd_view(a.self)
+        w, t = SInt.of(a.whence), SInt.of(a.target)
+        p = ite(w == 0, t, ite(w == 1, o.pos + t, o.content.length() + t))
+        has_lazy = a.self.f['_lazy_uncompressed_stream'] is not None
+        yield 'rejects_only_out_of_range_or_unsupported', b_or(b_not(b_or(w == 0, w == 1, w == 2)), p < 0,
+                                                              b_and(w == 2, SBool.of(not has_lazy)))
+        yield 'reject_leaves_position', n.pos == o.pos
+        yield 'content_unchanged', n.content == o.content
+        yield from self.rep_clauses(a)
+
+    def havoc(self, vc, I, a):
+        zd_havoc(vc, a.self)
+        return SInt.fresh('zdseek')
+
+
+# ----------------------------------------------------------------------------- CallbackStreamWrapper
+def mk_csw(vc, I):
+    inner = EM.AbsStream(SBytes.fresh('inner'), SInt.fresh('ipos'), short_reads=True)
+    vc.assume(inner.pos >= 0)
+    cb = EM.CallbackFn() if vc.choose(2, label='has_callback') == 0 else None
+    return new_obj(I, 'utils:CallbackStreamWrapper', _stream=inner, _callback=cb, _total_length=SInt.fresh('total'),
+                   _description='d', _update_every=SInt.fresh('every'), _since_last_update=SInt.fresh('since'))
+
+
+class CswRead(Unit):
+    fn = 'utils:CallbackStreamWrapper.read'
+    props = ('C07',)
+
+    def make(self, vc, I):
+        return NS(self=mk_csw(vc, I), size=opt_int(vc, 'size', 'size_is_None'))
+
+    def snapshot(self, vc, a):
+        s = a.self.f['_stream']
+        return NS(content=s.content, pos=s.pos)
+
+    def post(self, vc, a, o, ret):
+        s = a.self.f['_stream']
+        r = SBytes.of(ret)
+        yield 'returns_a_prefix_of_the_rest', o.content.slice(o.pos, None).startswith(r)
+        yield 'position_advanced_by_returned_length', s.pos == o.pos + r.length()
+        if a.size is not None:
+            yield 'at_most_size', implies(SInt.of(a.size) >= 0, r.length() <= SInt.of(a.size))
+            yield 'empty_only_at_end', implies(b_and(SInt.of(a.size) > 0, r.length() == 0), o.pos >= o.content.length())
+        else:
+            yield 'read_all', r == o.content.slice(o.pos, None)
+
+
+class CswSeek(Unit):
+    fn = 'utils:CallbackStreamWrapper.seek'
+    props = ('C07',)
+    allowed_exc = ('ValueError',)
+    inline = ('utils:CallbackStreamWrapper.tell', 'utils:CallbackStreamWrapper.close_callback')
+
+    def make(self, vc, I):
+        return NS(self=mk_csw(vc, I), target=SInt.fresh('target'), whence=SInt.of(vc.choose(3, label='whence')))
+
+    def snapshot(self, vc, a):
+        s = a.self.f['_stream']
+        return NS(content=s.content, pos=s.pos)
+
+    def post(self, vc, a, o, ret):
+        s = a.self.f['_stream']
+        p = file_seek_result(o.pos, o.content.length(), a.target, a.whence)
+        yield 'like_memory_file', b_and(SInt.of(ret) == p, s.pos == p)
+
+    def exc(self, vc, a, o, e):
+        s = a.self.f['_stream']
+        p = file_seek_result(o.pos, o.content.length(), a.target, a.whence)
+        yield 'rejects_only_negative', p < 0
+        yield 'reject_leaves_position', s.pos == o.pos
+
+
+class CswTell(Unit):
+    fn = 'utils:CallbackStreamWrapper.tell'
+    props = ('C07',)
+
+    def make(self, vc, I):
+        return NS(self=mk_csw(vc, I))
+
+    def snapshot(self, vc, a):
+        return NS(pos=a.self.f['_stream'].pos)
+
+    def post(self, vc, a, o, ret):
+        yield 'tell_is_pos', b_and(SInt.of(ret) == o.pos, a.self.f['_stream'].pos == o.pos)
+
+
+# ----------------------------------------------------------------------------- ZeroStream
+class ZeroRead(Unit):
+    fn = 'utils:ZeroStream.read'
+    props = ('C07',)
+
+    def make(self, vc, I):
+        z = new_obj(I, 'utils:ZeroStream', _length=SInt.fresh('length'), _pos=SInt.fresh('pos'))
+        return NS(self=z, size=opt_int(vc, 'size', 'size_is_None'))
+
+    def pre(self, vc, a):
+        z = a.self
+        yield 'rep', b_and(SInt.of(z.f['_pos']) >= 0, SInt.of(z.f['_pos']) <= SInt.of(z.f['_length']))
+
+    def snapshot(self, vc, a):
+        return NS(pos=SInt.of(a.self.f['_pos']), len=SInt.of(a.self.f['_length']))
+
+    def post(self, vc, a, o, ret):
+        z = a.self
+        r = SBytes.of(ret)
+        rest = o.len - o.pos
+        want = rest if a.size is None else ite(SInt.of(a.size) < 0, rest, smin(rest, SInt.of(a.size)))
+        yield 'length_as_memory_file', r.length() == want
+        yield 'pos_advanced', SInt.of(z.f['_pos']) == o.pos + r.length()
+        yield 'rep_kept', b_and(SInt.of(z.f['_pos']) >= 0, SInt.of(z.f['_pos']) <= o.len)
+
+
+UNITS += [LlsRead(), LlsSeek(), LlsTell(), LlsOpenStreamAssumed(), ZdReadCompressed(), ZdRead(), ZdTell(),
+          ZdSeekInternal(), ZdSeek(), CswRead(), CswSeek(), CswTell(), ZeroRead()]
